@@ -117,6 +117,28 @@ CLAIMED = {
         note="SimFS replaces the disk; short reads are not injected (buffered-file contract); one open known "
              "finding (self-overlapping delimiters with a blocksize) is matched narrowly.",
         ref="DESIGN.md §4 C50"),
+    "C28": dict(
+        technique="deterministic simulation (E1): the same random array computed under different entry points, "
+                  "simulated completion schedules, worker counts, pickle boundary, recomputation and a fresh "
+                  "interpreter; entropy seam for unseeded generators",
+        text="Seeded arrays built twice from fresh generators must have equal names and bit-identical values "
+             "across every simulated schedule/scheduler, on recomputation of the same object, and in a fresh "
+             "interpreter with another hash seed; unseeded pairs must get distinct names and equal their solo "
+             "computation when computed together; choice(replace=False) must return distinct members.",
+        note="Nothing is compared with NumPy's own stream; OS entropy is served by the simulator's PRNG through "
+             "numpy.random.bit_generator.randbits; tasks atomic under E1.",
+        ref="DESIGN.md §4 C28"),
+    "C49": dict(
+        technique="deterministic simulation (E1) with the global PRNG as randomness seam: tasks draw from it in "
+                  "simulated schedule order; reproducibility checked across schedulers, schedules and a fresh "
+                  "interpreter",
+        text="sample/choices results must be valid (size, sub-multiset / membership) for every simulated "
+             "completion order in which tasks consume the global PRNG, for empty partitions, k=0 and k>n; "
+             "random_sample with a fixed random_state must return the identical subsequence under three "
+             "scheduler/schedule combinations, for an equal separately built bag, and in a fresh interpreter.",
+        note="The PRNG is the real Mersenne twister seeded from the run seed; no distributional claim; one open "
+             "known finding (sample with k > n raises; a pinned test asserts that) is matched narrowly.",
+        ref="DESIGN.md §4 C49"),
 }
 
 NA = {
